@@ -18,6 +18,7 @@ EXPLANATION = ("Decided from the call graph and MIR of BasicCreator: (R1) in eve
                "compiling twin). POSIX rename atomicity is assumed; behaviour at every crash offset is not explored."
                " (R5) every BufWriter built in the creator reaches flush()/into_inner() on every successful path (an error in the implicit flush of Drop is discarded)."
                ' Added later: (R6) errors of the worker threads reach finalize; (R7) every direct Write::write uses the count it returns or hands the Result back. (R8) a Result produced inside a loop of the creator is inspected in the turn that made it, never only after the loop.')
+EXPLANATION += ' Batch 11: (R9) only ConcatMode::OneFile opens the destination itself for the content pack; in the other modes the path comes out of new_with_extension.'
 ASSUMPTIONS = ["rename(2) is atomic within a file system; crash = process death (no fsync needed)", "tempfile::NamedTempFile::persist renames over the destination",
                "the call graph over-approximates dynamic dispatch (all impls of a trait method)"]
 
@@ -397,7 +398,35 @@ def r8_an_error_is_not_overwritten_by_a_later_success(cx):
     cx.ob("R8", "R8/errors-are-read-in-the-turn-that-made-them", not bad, "(creator)", "%d fallible calls inside loops of the creator: each result is inspected inside its loop" % n)
 
 
+def r9_only_one_file_mode_creates_the_entry_point_early(cx):
+    """'the destination path either does not exist, still holds the previous file, or holds a complete container': in the
+    packagings that spread the container over several files the destination is the *manifest*, written last. The file
+    BasicCreator::new opens for the content pack is therefore the destination itself only under ConcatMode::OneFile; in
+    every other mode its path comes out of new_with_extension(..) -- whatever the shape of the test on the mode."""
+    F = cx.F
+    f = F.one(impl_self="basic_creator::BasicCreator", item="new", closure=False)
+    b = F.deep_body(f, only=r"basic_creator::BasicCreator", closures=True)
+    en = F.enum("ConcatMode")
+    if not en:
+        raise AnchorLost("enum ConcatMode")
+    n = 0
+    for v in en["variants"]:
+        r, _ = b.explore(assume_discr={r"basic_creator::ConcatMode$": v["discr"]}, avoid=b.panic_blocks())
+        news = [(i, t) for i, t in b.calls(r"AtomicOutFile::new(::<.*>)?$") if i in r]
+        if not news:
+            raise AnchorLost("BasicCreator::new opens no AtomicOutFile under ConcatMode::%s" % v["name"])
+        for i, t in news:
+            o = b.origins(t["args"][0], blocks=set(r))
+            ext = any(x[0] == "call" and call_is(b.term(x[1]), r"new_with_extension$|with_extension$|set_extension$|with_added_extension$") for x in o)
+            n += 1
+            if v["name"] == "OneFile":
+                cx.ob("R9", "R9/new/%s/content-pack-file" % v["name"], True, f, "under OneFile the content pack is written in the destination file itself (renamed last, once complete)", ln=t.get("ln"))
+            else:
+                cx.ob("R9", "R9/new/%s/content-pack-file" % v["name"], ext, f, "under %s the file opened for the content pack is a side file (its path comes out of new_with_extension), not the destination" % v["name"], ln=t.get("ln"))
+
+
 RULES = [
+    ("R9", r9_only_one_file_mode_creates_the_entry_point_early, 3),
     ("R8", r8_an_error_is_not_overwritten_by_a_later_success, 1),
     ("R7", r7_no_partial_write_accepted, 1),
     ("R6", r6_thread_errors_reach_finalize, 1),
